@@ -645,7 +645,7 @@ fn preemptions(trace: &[Point], upto: usize) -> usize {
 pub fn explore_subtree(run: &mut RunFn, root: Vec<usize>, bound: usize, cap: u64, st: &mut ExploreStats) {
     let mut stack: Vec<Vec<usize>> = vec![root];
     while let Some(prefix) = stack.pop() {
-        if st.executions >= cap {
+        if st.executions >= cap || (st.executions % 16 == 0 && crate::par::over_budget()) {
             st.capped = true;
             return;
         }
